@@ -72,7 +72,7 @@ func meshTokens(m modeling.Mesh, full bool) string {
 	fmt.Fprintf(&sb, " %d", len(n1)+len(n2)+len(n3)+len(n4))
 	for _, a := range n1 {
 		d := m.Float1Attribute(a)
-		fmt.Fprintf(&sb, " 1 %s %d", a, d.Len())
+		fmt.Fprintf(&sb, " 1 %s %d", tok(a), d.Len())
 		if full {
 			for i := 0; i < d.Len(); i++ {
 				sb.WriteString(" " + fsN(d.At(i)))
@@ -81,7 +81,7 @@ func meshTokens(m modeling.Mesh, full bool) string {
 	}
 	for _, a := range n2 {
 		d := m.Float2Attribute(a)
-		fmt.Fprintf(&sb, " 2 %s %d", a, d.Len())
+		fmt.Fprintf(&sb, " 2 %s %d", tok(a), d.Len())
 		if full {
 			for i := 0; i < d.Len(); i++ {
 				v := d.At(i)
@@ -91,7 +91,7 @@ func meshTokens(m modeling.Mesh, full bool) string {
 	}
 	for _, a := range n3 {
 		d := m.Float3Attribute(a)
-		fmt.Fprintf(&sb, " 3 %s %d", a, d.Len())
+		fmt.Fprintf(&sb, " 3 %s %d", tok(a), d.Len())
 		if full {
 			for i := 0; i < d.Len(); i++ {
 				v := d.At(i)
@@ -101,7 +101,7 @@ func meshTokens(m modeling.Mesh, full bool) string {
 	}
 	for _, a := range n4 {
 		d := m.Float4Attribute(a)
-		fmt.Fprintf(&sb, " 4 %s %d", a, d.Len())
+		fmt.Fprintf(&sb, " 4 %s %d", tok(a), d.Len())
 		if full {
 			for i := 0; i < d.Len(); i++ {
 				v := d.At(i)
@@ -111,6 +111,9 @@ func meshTokens(m modeling.Mesh, full bool) string {
 	}
 	return sb.String()
 }
+
+// tok makes an attribute name one protocol token (names like "track count" contain blanks)
+func tok(name string) string { return strings.ReplaceAll(name, " ", "_") }
 
 func meshStr(m modeling.Mesh) string  { return meshTokens(m, true) }
 func shapeStr(m modeling.Mesh) string { return meshTokens(m, false) }
